@@ -1,4 +1,5 @@
 import GqlVerif.Props.C03
+import GqlVerif.Proofs.C01EndToEnd
 open GqlVerif.C03
 #print axioms ok_iff_accepts
 #print axioms null_at_non_null_rejected
@@ -15,3 +16,9 @@ open GqlVerif.C03
 #print axioms unknown_tag_other
 #print axioms missing_tag_rejected
 #print axioms integer_tag_buffered_vs_direct
+-- exact acceptance of the generated ResponseData for tree-shaped operations (Proofs/C01EndToEnd*.lean)
+#print axioms GqlVerif.C01.E2E.tree_precise_iff
+#print axioms GqlVerif.C01.E2E.tree_precise
+#print axioms GqlVerif.C01.E2E.struct_accepts_iff
+#print axioms GqlVerif.C01.E2E.array_at_object_position_accepted
+#print axioms GqlVerif.C01.E2E.absent_nullable_key_accepted
